@@ -1,0 +1,36 @@
+//go:build verif
+
+package verifexport
+
+import (
+	"github.com/jhalter/mobius/hotline"
+	"github.com/jhalter/mobius/internal/mobius"
+)
+
+type (
+	YAMLAccountManager = mobius.YAMLAccountManager
+	BanFile            = mobius.BanFile
+	FlatNews           = mobius.FlatNews
+	Agreement          = mobius.Agreement
+	ThreadedNewsYAML   = mobius.ThreadedNewsYAML
+)
+
+func RegisterHandlers(srv *hotline.Server) { mobius.RegisterHandlers(srv) }
+
+func NewYAMLAccountManager(accountDir string) (*mobius.YAMLAccountManager, error) {
+	return mobius.NewYAMLAccountManager(accountDir)
+}
+
+func NewBanFile(path string) (*mobius.BanFile, error) { return mobius.NewBanFile(path) }
+
+func NewFlatNews(path string) (*mobius.FlatNews, error) { return mobius.NewFlatNews(path) }
+
+func NewAgreement(path, lineEndings string) (*mobius.Agreement, error) {
+	return mobius.NewAgreement(path, lineEndings)
+}
+
+func NewThreadedNewsYAML(filePath string) (*mobius.ThreadedNewsYAML, error) {
+	return mobius.NewThreadedNewsYAML(filePath)
+}
+
+func LoadConfig(path string) (*hotline.Config, error) { return mobius.LoadConfig(path) }
